@@ -41,6 +41,7 @@ fn many_rows_cmd(r: &mut Rng, binary_stmt: Option<u32>) -> Cmd {
         probe_cells: false,
         pull_params: None,
         pull_skip: 0,
+        mixed_rows: 0,
     };
     match binary_stmt {
         Some(id) => Cmd {
@@ -116,6 +117,7 @@ fn gen_counts_plan(r: &mut Rng) -> Plan {
                     probe_cells: false,
                     pull_params: None,
                     pull_skip: 0,
+                    mixed_rows: 0,
                 }),
             });
         }
@@ -145,6 +147,7 @@ fn gen_counts_plan(r: &mut Rng) -> Plan {
                     probe_cells: false,
                     pull_params: None,
                     pull_skip: 0,
+                    mixed_rows: 0,
                 }),
             });
         }
